@@ -27,16 +27,26 @@ INNER_ALL = [k for k, e in R.ENTRIES.items() if e["task"] == "clf" and not e["fl
 INNER = INNER_LIGHT * 3 + [k for k in INNER_ALL if not R.ENTRIES[k]["flags"].get("heavy")] * 2 + INNER_ALL
 
 
-def _aggregator(name):
+def _aggregator(name, str_labels=False):
     """Caller-supplied label aggregation (one free parameter, returns one label per sample)."""
     if name is None:
         return None
     if name == "mv3":
         from skactiveml.utils import majority_vote
 
+        if str_labels:
+            return lambda y: majority_vote(y, missing_label=None, random_state=3)
         return lambda y: majority_vote(y, random_state=3)
 
     def first_label(y):
+        if str_labels:
+            y = np.asarray(y, dtype=object)
+            out = np.full(len(y), None, dtype=object)
+            for i, row in enumerate(y):
+                lab = [v for v in row if v is not None]
+                if lab:
+                    out[i] = lab[0]
+            return out
         y = np.asarray(y, dtype=float)
         out = np.full(len(y), np.nan)
         for i, row in enumerate(y):
@@ -46,6 +56,16 @@ def _aggregator(name):
         return out
 
     return first_label
+
+
+def enc_matrix(y, str_labels):
+    """NaN-coded numeric label matrix -> the caller's coding (class names / None in string-label mode)."""
+    if not str_labels:
+        return y.copy()
+    out = np.full(y.shape, None, dtype=object)
+    lab = ~np.isnan(y)
+    out[lab] = [R.label_name(v) for v in y[lab]]
+    return out
 
 
 def y_matrix(rows):
@@ -70,7 +90,7 @@ class C07Check(Check):
         "without any available annotator existed. Distinct by (subject, argument representation, fault kinds, probes)."
     )
     fault_kinds = ["annotator_offline", "pair_unavailable", "no_answer"]
-    probes_expected = ["row_without_available_annotator", "fewer_annotators_than_requested", "batch_clipped", "repr_none_none", "repr_none_idx", "repr_none_bool", "repr_idx_bool", "repr_rows", "multi_cycle", "utilities_checked", "napa_array", "napa_array_shorter_than_batch", "mask_not_bool_dtype", "labeled_sample_still_candidate"]
+    probes_expected = ["row_without_available_annotator", "fewer_annotators_than_requested", "batch_clipped", "repr_none_none", "repr_none_idx", "repr_none_bool", "repr_idx_bool", "repr_rows", "multi_cycle", "utilities_checked", "napa_array", "napa_array_shorter_than_batch", "mask_not_bool_dtype", "labeled_sample_still_candidate", "string_class_labels"]
     assumptions = [
         "availability is what the candidates/annotators arguments say (documented table); with both None: pairs whose label is missing",
         "termination is judged with a deterministic fuel of %d line events inside skactiveml per query" % FUEL,
@@ -116,7 +136,7 @@ class C07Check(Check):
                 "mask_dtype": g.pick(["bool", "bool", "int", "float"]),
             }
             cycles.append(cyc)
-        return {"engine": "crowdsim", "subject": subject, "model": "pwc", "seed": g.randrange(0, 1000), "X": X.tolist(), "y0": y0, "truth": truth, "cycles": cycles, "y_aggregate": g.pick([None, None, "mv3", "first"]), "iet": g.pick([None, None, {"epsilon": 0.5, "alpha": 0.5}, {"epsilon": 1.0, "alpha": 0.01}, {"epsilon": 0.0, "alpha": 0.2}])}
+        return {"engine": "crowdsim", "subject": subject, "model": "pwc", "seed": g.randrange(0, 1000), "X": X.tolist(), "y0": y0, "truth": truth, "cycles": cycles, "str_labels": rng.fork("str").chance(0.15), "y_aggregate": g.pick([None, None, "mv3", "first"]), "iet": g.pick([None, None, {"epsilon": 0.5, "alpha": 0.5}, {"epsilon": 1.0, "alpha": 0.01}, {"epsilon": 0.0, "alpha": 0.2}])}
 
     # ------------------------------------------------------------------
     def _strategy(self, sc):
@@ -125,14 +145,19 @@ class C07Check(Check):
         if sc["subject"] == "IntervalEstimationThreshold":
             from skactiveml.classifier.multiannotator import AnnotatorLogisticRegression
 
-            return IntervalEstimationThreshold(random_state=sc["seed"], **(sc.get("iet") or {})), {"clf": AnnotatorLogisticRegression(classes=[0, 1], random_state=0, max_iter=10)}
+            st = bool(sc.get("str_labels"))
+            extra = {"missing_label": None} if st else {}
+            clf = AnnotatorLogisticRegression(classes=[R.label_name(0), R.label_name(1)] if st else [0, 1], random_state=0, max_iter=10, **extra)
+            return IntervalEstimationThreshold(random_state=sc["seed"], **(sc.get("iet") or {}), **extra), {"clf": clf}
         key = sc["subject"].split(":", 1)[1]
-        inner = R.build_strategy(key, sc["seed"])
+        st = bool(sc.get("str_labels"))
+        overrides = {"classes": [R.label_name(0), R.label_name(1)], "missing_label": None} if st else None
+        inner = R.build_strategy(key, sc["seed"], overrides=overrides)
         arg, _ = R.model_arg(key)
         kw = {}
         if arg:
-            kw[arg] = R.model(R.ENTRIES[key]["models"][0], classes=[0, 1], seed=0)
-        return SingleAnnotatorWrapper(inner, y_aggregate=_aggregator(sc.get("y_aggregate")), random_state=sc["seed"]), kw
+            kw[arg] = R.model(R.ENTRIES[key]["models"][0], classes=[0, 1], seed=0, str_labels=st)
+        return SingleAnnotatorWrapper(inner, y_aggregate=_aggregator(sc.get("y_aggregate"), st), random_state=sc["seed"], **({"missing_label": None} if st else {})), kw
 
     @staticmethod
     def availability(cyc, y, n, na):
@@ -209,6 +234,9 @@ class C07Check(Check):
             if bs > n_avail:
                 ctx.probe("batch_clipped")
             cond = {"cand": cyc["cand"], "avail": cyc["avail"], "subject": sc["subject"].split(":")[0]}
+            if sc.get("str_labels"):
+                cond["str_labels"] = True
+                ctx.probe("string_class_labels")
             if ":" in sc["subject"]:
                 cond["inner"] = sc["subject"].split(":", 1)[1].split(":")[0]
                 # a sample already labeled by one annotator that is still offered to the others: the wrapped
@@ -236,7 +264,7 @@ class C07Check(Check):
             call["return_utilities"] = want_ut
             try:
                 with Fuel(FUEL):
-                    res = qs.query(X, y.copy(), **call)
+                    res = qs.query(X, enc_matrix(y, bool(sc.get("str_labels"))), **call)
                 idx, ut = res if want_ut else (res, None)
             except SimFuelExhausted:
                 ctx.violate("query-does-not-terminate", subj, f"cycle {t}: query used more than {FUEL} line events (batch {bs}, {n_avail} available pairs, availability rows {A.sum(axis=1).tolist()}, representation {rep})", cond)
